@@ -183,6 +183,33 @@ def collect(vh: Vh) -> Dict[str, Any]:
         py_t = [info[0].name, info[1]]
         bn = [getattr(arch.regs[sub], "full_width_reg", None) or arch.regs[sub].name, arch.regs[sub].offset * 8] if sub in arch.regs else None
         group(f"sub-register layout {sub}", py_subreg_info=py_t, py_behaviour=py_b, rs_behaviour=rs_b, bn_arch=bn)
+    # --- sub-register layout, write direction: on a background where every byte differs, writing the sub-register must change
+    #     exactly its own bits of its own container (IL additionally clears IH) - per the Python table, the Binary Ninja
+    #     register definitions, and the behaviour of both register files
+    for bg in ({"BA": 0x1234, "I": 0x5678, "F": 0x00}, {"BA": 0xA55A, "I": 0x0F3C, "F": 0x03}):
+        for sub, val in [("A", 0x9C), ("B", 0x9C), ("IL", 0xE1), ("IH", 0xE1), ("FC", 1), ("FZ", 1), ("FC", 0), ("FZ", 0)]:
+            def expect(base, shift, width, sub=sub, val=val, bg=bg):
+                out = dict(bg)
+                m = ((1 << width) - 1) << shift
+                out[base] = (bg[base] & ~m) | ((val << shift) & m)
+                if sub == "IL":
+                    out["I"] &= 0x00FF
+                return [out["BA"], out["I"], out["F"] & 3]
+            info = Registers._SUBREG_INFO[RegisterName[sub]]
+            width = 1 if sub in ("FC", "FZ") else 8
+            from_table = expect(info[0].name, info[1], width)
+            from_bn = expect(getattr(arch.regs[sub], "full_width_reg", None) or arch.regs[sub].name, arch.regs[sub].offset * 8, width) if sub in arch.regs else None
+            r = Registers()
+            for k, v in bg.items():
+                r.set_by_name(k, v)
+            r.set_by_name(sub, val)
+            py_b = [r.get_by_name("BA"), r.get_by_name("I"), r.get_by_name("F") & 3]
+            vh.call("regs.new")
+            for k, v in bg.items():
+                vh.call("regs.write", name=k, value=v)
+            st = vh.call("regs.write", name=sub, value=val)["state"]
+            rs_b = [st["BA"], st["I"], st["F"] & 3]
+            group(f"sub-register write {sub}={val} on {bg['BA']:04X}/{bg['I']:04X}/{bg['F']}", py_subreg_info=from_table, bn_arch=from_bn, py_behaviour=py_b, rs_behaviour=rs_b)
     # --- IMEM register offsets
     for n, off in dump["imem"].items():
         group(f"IMEM offset {n}", rs_memory=off, py_imem_registers=int(O.IMEMRegisters[n]))
